@@ -450,11 +450,29 @@ func runC08(r *Report) {
 				}
 				return "other:" + Desc(v), nil
 			}
-			kk, ks := origin(k)
-			ck, cs := origin(c)
-			ok := kk == "CacheKey#0" && ck == "CacheKey#1" && (ks == cs || ks == nil || cs == nil) ||
-				kk == "MGetCacheKey" && ck == "MGetCacheCmd" && Same(ks, cs) ||
-				kk == "ArgvKey" && ck == "MGetCacheCmd"
+			pairOK := func(k, c ssa.Value) (bool, string, string) {
+				kk, ks := origin(k)
+				ck, cs := origin(c)
+				return kk == "CacheKey#0" && ck == "CacheKey#1" && (ks == cs || ks == nil || cs == nil) ||
+					kk == "MGetCacheKey" && ck == "MGetCacheCmd" && Same(ks, cs) ||
+					kk == "ArgvKey" && ck == "MGetCacheCmd", kk, ck
+			}
+			ok, kk, ck := pairOK(k, c)
+			if _, isPrm := k.(*ssa.Parameter); !ok && isPrm {
+				// an unexported helper that is handed key and identity: decided at each of its call sites
+				kv, _, ok1 := paramArgs(p, k)
+				cv, _, ok2 := paramArgs(p, c)
+				if _, cPrm := c.(*ssa.Parameter); cPrm && ok1 && ok2 && len(kv) == len(cv) && len(kv) > 0 {
+					ok = true
+					for i := range kv {
+						o, a, b := pairOK(kv[i], cv[i])
+						if !o {
+							ok = false
+						}
+						kk, ck = "caller:"+a, "caller:"+b
+					}
+				}
+			}
 			r.ObSite("R08c", s, "key-and-identity-of-one-command", ok, fmt.Sprintf("the store is given the key and the command identity of the same command, in this order: key from %s, identity from %s", kk, ck))
 		}
 	}
